@@ -41,13 +41,14 @@ def _doc(value, ctx, trailing_comment):
     if value.badret is not None:
         return value.badret[0]
     if value.fault and value.fault[1] == 'before':
-        raise EXC[value.fault[0]]('injected before')
+        # (the message is hostile to str.format on purpose)
+        raise EXC[value.fault[0]]('injected before {x} {0} {{y}} { %s')
     nested = ctx.nested_call()
     argdocs = [pretty_python_value(c, nested) for c in value.children]
     kwargdocs = [('tag', pretty_python_value(value.tag, nested))]
     doc = build_fncall(ctx, type(value), argdocs=argdocs, kwargdocs=kwargdocs, trailing_comment=trailing_comment)
     if value.fault and value.fault[1] == 'after':
-        raise EXC[value.fault[0]]('injected after')
+        raise EXC[value.fault[0]]("injected after {'k': {1, 2}} %d {")
     return doc
 
 
@@ -59,6 +60,20 @@ def pretty_fnode(value, ctx, trailing_comment=None):
 @register_pretty(FNode2)
 def pretty_fnode2(value, ctx):
     return _doc(value, ctx, None)
+
+
+class FLazyBase(FNode):
+    """printer registered by NAME for this base class; instances are of the subclass FLazySub, so the printer is
+    promoted through the superclass walk on first use"""
+
+
+class FLazySub(FLazyBase):
+    pass
+
+
+@register_pretty('ppv.faults.FLazyBase')
+def pretty_flazy(value, ctx, trailing_comment=None):
+    return _doc(value, ctx, trailing_comment)
 
 
 @register_pretty(ReprLeaf)
@@ -99,3 +114,19 @@ class OpaqueObj:
 
     def __hash__(self):
         return hash(self.k)
+
+
+class PredThing:
+    """printed through a VALUE-dependent predicate: only instances with .flag set are accepted"""
+
+    def __init__(self, flag, k=0):
+        self.flag = flag
+        self.k = k
+
+    def __repr__(self):
+        return 'PredThing(%r, %r)' % (self.flag, self.k)
+
+
+@register_pretty(predicate=lambda v: isinstance(v, PredThing) and v.flag)
+def pretty_predthing(value, ctx):
+    return 'PRED<%s>' % (value.k,)
